@@ -1,5 +1,7 @@
 """C16 -- compilation is deterministic."""
 import collections
+import os
+import shutil
 import subprocess
 
 import noise_gen
@@ -158,7 +160,76 @@ def tie(ctx):
                              "in_process_repeats": reps, "processes": procs}}
 
 
+# ---- the command line: the output file after a compilation does not depend on what an earlier one left there ----
+
+_cli = {}
+
+
+def cli_history(ctx):
+    """`sylt -o FILE` run after other compilations wrote (longer and shorter) programs to the same FILE must leave the
+    bytes a compilation into a new file leaves"""
+    import prog_gen
+    ok, out = vlib.build_sylt_bin()
+    if not ok:
+        return None, "cargo build of the sylt binary failed: " + out[-300:]
+    exe = os.path.join(vlib.BUILD, "target", "release", "sylt")
+    d = os.path.join(vlib.BUILD, "tmp", "c16-cli-%d" % os.getpid())
+    shutil.rmtree(d, ignore_errors=True)
+    os.makedirs(d)
+    progs = []
+    for i, size in enumerate([1, 4, 2, 6, 1, 3] if ctx.tier == "quick" else [1, 4, 2, 6, 1, 3, 8, 2, 5, 1, 7, 3]):
+        src = prog_gen.program(vlib.rng(ctx.seed, "c16-cli-%d" % i), size)
+        if i % 3 == 2:
+            src += "\n// a trailing comment: same Lua as without it\n"
+        f = os.path.join(d, "p%d.sy" % i)
+        open(f, "w").write(src)
+        progs.append(f)
+
+    def comp(src, out):
+        return subprocess.run([exe, "--no-std", "-o", out, src], capture_output=True, timeout=120).returncode
+    fresh = {}
+    for f in progs:
+        o = f + ".fresh.lua"
+        fresh[f] = open(o, "rb").read() if comp(f, o) == 0 else None
+    bad = []
+    n = 0
+    shared = os.path.join(d, "out.lua")
+    for a in progs:
+        for b in progs:
+            if fresh[a] is None or fresh[b] is None:
+                continue
+            if os.path.exists(shared):
+                os.remove(shared)
+            comp(a, shared)
+            comp(b, shared)
+            got = open(shared, "rb").read()
+            n += 1
+            if got != fresh[b]:
+                bad.append({"class": "cli-output-file-history", "first": open(a).read(), "then": open(b).read(),
+                            "what": "`sylt -o out.lua A; sylt -o out.lua B` leaves %d bytes in out.lua, `sylt -o new.lua B` leaves %d "
+                                    "(len of A's program: %d)" % (len(got), len(fresh[b]), len(fresh[a]))})
+    shutil.rmtree(d, ignore_errors=True)
+    _cli["bad"] = bad
+    return {"pairs": n, "programs": len(progs), "accepted": sum(1 for v in fresh.values() if v is not None),
+            "distinct_program_sizes": len(set(len(v) for v in fresh.values() if v is not None)), "differences": len(bad)}, None
+
+
+def always(ctx):
+    stats, err = cli_history(ctx)
+    if err:
+        ctx.brk("oracle:cli-output-file-history", err)
+        return {}
+    for b in _cli["bad"][:2]:
+        ctx.brk("property:cli-output-file-history", b["what"])
+    return {"cli_output_file_history": stats}
+
+
 def search(ctx):
+    if _cli.get("bad"):
+        b = min(_cli["bad"], key=lambda x: len(x["first"]) + len(x["then"]))
+        return {"class": b["class"], "files": {"/A.sy": b["first"], "/B.sy": b["then"]}, "what": b["what"],
+                "replay_cmd": "sylt --no-std -o out.lua A.sy; sylt --no-std -o out.lua B.sy; sylt --no-std -o new.lua B.sy; cmp out.lua new.lua",
+                "failing_inputs_found": len(_cli["bad"])}
     bad = getattr(ctx, "c16_bad", None)
     if bad is None:
         cases = gen_cases(ctx)
